@@ -146,6 +146,30 @@ pub(crate) mod c10 {
         Box::leak(Box::new(IpaPrivateKey::from_bytes(&[7u8; 32]).unwrap()))
     }
 
+    harness! {
+        #[kani::unwind(36)]
+        #[kani::stub(crate::hpke::open_in_place, crate::verif_kani::c10_report::c10::open_in_place_stub)]
+        fn x10_decrypt_impression_total_and_key_choice() {
+            // any accepted impression record (any metadata tail incl. none), registry with ONE key
+            // registered under the record's key identifier or no key at all, AEAD succeeding or failing:
+            // decrypt returns Ok/Err and never panics; a record whose key is not registered never decrypts.
+            let (buf, len, bytes) = symbolic_record();
+            kani::assume(len >= 1 && buf[0] == 0);
+            if let Ok(r) = Enc::from_bytes(bytes) {
+                let have_key: bool = kani::any();
+                let reg = OneKey(if have_key { Some(a_key()) } else { None });
+                let out = r.decrypt(&reg);
+                if !have_key {
+                    assert!(out.is_err(), "no key registered for the record's key identifier: decryption must fail");
+                }
+                kani::cover!(out.is_ok());
+                kani::cover!(out.is_err() && have_key);
+                std::mem::forget(out);
+                std::mem::forget(r);
+            }
+        }
+    }
+
     // `decrypt` parses the metadata tail `&data[INFO_OFFSET..]` (ANY length >= 0 for an accepted
     // record) BEFORE the AEAD is opened, so these two parsers see attacker-controlled bytes.
     harness! {
